@@ -12,7 +12,10 @@ EXTENDS Integers, Sequences, FiniteSets, Bits
 
 NoSym == -1
 
-CodecNames == {"dna", "iupac", "amino", "text", "mdna", "miupac", "degen"}
+\* "x3" and "x7" are two codecs DERIVED in the harness (harness/src/custom.rs) from declarations written
+\* for this purpose, so that symbol widths 3 and 7 -- which no built-in codec has -- go through every
+\* codec-generic property:  x3: A=0 C=1 G=2 T=3 N=4 gap('-')=7, alt 5->N;   x7: A=0 C=1 G=64 T=127 N=85 W=42
+CodecNames == {"dna", "iupac", "amino", "text", "mdna", "miupac", "degen", "x3", "x7"}
 
 \* DNA bases as numbers: the documented 2-bit codes
 bA == 0  bC == 1  bG == 2  bT == 3
@@ -148,13 +151,20 @@ ItemsOf(c) ==
                             ELSE IF m = 1 THEN Lower(e.ch) ELSE e.ch]]
       [] c = "degen" ->
             <<[code |-> 1, ch |-> chS], [code |-> 0, ch |-> chW]>>
+      [] c = "x3" ->
+            <<[code |-> 0, ch |-> chA], [code |-> 1, ch |-> chC], [code |-> 2, ch |-> chG],
+              [code |-> 3, ch |-> chT], [code |-> 4, ch |-> chN], [code |-> 7, ch |-> chDash]>>
+      [] c = "x7" ->
+            <<[code |-> 0, ch |-> chA], [code |-> 1, ch |-> chC], [code |-> 64, ch |-> chG],
+              [code |-> 127, ch |-> chT], [code |-> 85, ch |-> chN], [code |-> 42, ch |-> chW]>>
 
 W(c) == CASE c = "dna" -> 2 [] c = "iupac" -> 4 [] c = "amino" -> 6 [] c = "text" -> 8
-          [] c = "mdna" -> 4 [] c = "miupac" -> 5 [] c = "degen" -> 1
+          [] c = "mdna" -> 4 [] c = "miupac" -> 5 [] c = "degen" -> 1 [] c = "x3" -> 3 [] c = "x7" -> 7
 
 \* extra bit patterns accepted by the decoders: <<pattern, canonical code>>
 AltsOf(c) ==
     CASE c = "mdna" -> {<<3, 12>>, <<5, 10>>}
+      [] c = "x3" -> {<<5, 4>>}
       [] c = "amino" ->
             {<<CodonBits(x, y, z), AminoCodeOfChar(Genetic(x, y, z))>> : x \in Bases, y \in Bases, z \in Bases}
       [] OTHER -> {}
@@ -207,7 +217,7 @@ Char(c, code) == CharT[c][code]
 (***************************************************************************)
 (* Complement and soft-masking, at symbol level.                           *)
 (***************************************************************************)
-HasComp(c) == c \in {"dna", "iupac", "mdna", "miupac", "degen"}
+HasComp(c) == c \in {"dna", "iupac", "mdna", "miupac", "degen", "x3"}
 HasMask(c) == c \in {"mdna", "miupac"}
 
 SetComp(S) == {BaseComp(b) : b \in S}
@@ -221,6 +231,7 @@ Comp(c, code) ==
       [] c = "miupac" -> MIupacCode(SetComp(MIupacSet(code)), Bit(code, 2))
       [] c = "mdna" -> Decode("mdna", RevBits(code, 4))   \* "complemented by reversing the bit pattern"
       [] c = "degen" -> code                              \* complement is erased by the encoding
+      [] c = "x3" -> IF code <= 3 THEN 3 - code ELSE code   \* A-T, C-G; N and gap fixed (harness/src/custom.rs)
 
 Mask(c, code) ==
     CASE c = "miupac" -> MIupacCode(MIupacSet(code), 1)
@@ -230,7 +241,7 @@ Unmask(c, code) ==
     CASE c = "miupac" -> MIupacCode(MIupacSet(code), 0)
       [] c = "mdna" -> Decode("mdna", 15 - code)
 
-CompT == [c \in {"dna", "iupac", "mdna", "miupac", "degen"} |->
+CompT == [c \in {"dna", "iupac", "mdna", "miupac", "degen", "x3"} |->
             [p \in CodesOf(c) |-> Comp(c, p)]]
 MaskT == [c \in {"mdna", "miupac"} |-> [p \in CodesOf(c) |-> Mask(c, p)]]
 UnmaskT == [c \in {"mdna", "miupac"} |-> [p \in CodesOf(c) |-> Unmask(c, p)]]
